@@ -80,13 +80,17 @@ def main():
     if a.id:
         muts = [m for m in muts if m["id"] in a.id.split(",")]
     bad = 0
+    lp = os.path.join(VERIF, "selftest", "last_run.json")
+    last = json.load(open(lp)) if os.path.exists(lp) else {}
     with concurrent.futures.ThreadPoolExecutor(a.jobs) as ex:
         for m, status, detail in ex.map(lambda m: run_one(m, a.tests), muts):
             print("%-8s %-4s %-34s %s" % (status, m["property"], m["id"],
                                           detail))
             sys.stdout.flush()
+            last[m["id"]] = status.lower()
             if status != "KILLED":
                 bad += 1
+    json.dump(last, open(lp, "w"), indent=1, sort_keys=True)
     print("%d mutants, %d not killed" % (len(muts), bad))
     return 1 if bad else 0
 
